@@ -36,6 +36,8 @@ type world struct {
 	tracked map[int]bool
 	ever    []Hash // every leaf hash ever added on any branch
 	seen    map[Hash]bool
+
+	lastCall func(in *Inst) error // the library call of the last step, arguments bound
 }
 
 func newWorld(cfgs []Cfg) *world {
@@ -66,68 +68,94 @@ func (w *world) liveCheck(i int, slots []int) error {
 
 // step applies one step to every instance. caseErr reports a malformed case (only possible for
 // hand-edited replay files); opErr reports that the library refused an honest operation.
+// The library call of the step, with all its arguments bound, is also kept in w.lastCall so that a
+// schedule harness (C12) can replay exactly that call from another goroutine without touching w.
 func (w *world) step(i int, st WStep) (caseErr, opErr error) {
+	call, post, caseErr := w.prepare(i, st)
+	if caseErr != nil {
+		return caseErr, nil
+	}
+	w.lastCall = call
+	for _, in := range w.insts {
+		if err := call(in); err != nil {
+			return nil, err
+		}
+	}
+	post()
+	return nil, nil
+}
+
+// prepare builds the library call of one step (arguments are fresh copies on every invocation)
+// and the model bookkeeping that follows it.
+func (w *world) prepare(i int, st WStep) (call func(in *Inst) error, post func(), caseErr error) {
 	f := w.f
 	switch st.Op {
 	case "block":
 		if st.B == nil {
-			return fmt.Errorf("case error: block step %d without block", i), nil
+			return nil, nil, fmt.Errorf("case error: block step %d without block", i)
 		}
 		b := *st.B
 		if err := w.liveCheck(i, b.Del); err != nil {
-			return err, nil
+			return nil, nil, err
 		}
 		v := f.View()
 		delH := f.HashesOf(b.Del)
 		proof := v.Proof(delH)
 		adds, addH := mkLeavesSalt(b.Salt, len(f.Hashes), b.Add, func(k int) bool { return inSet(b.Rem, k) })
-		w.stack = append(w.stack, wFrame{f.Clone(), b, delH, proof, cloneHashes(v.Roots)})
-		for _, in := range w.insts {
+		fr := wFrame{f.Clone(), b, delH, proof, cloneHashes(v.Roots)}
+		call = func(in *Inst) error {
 			if err := in.Apply(adds, delH, proof); err != nil {
-				return nil, fmt.Errorf("step %d: %s refused the valid block {del %v, add %d}: %v", i, in.Cfg, b.Del, b.Add, err)
+				return fmt.Errorf("step %d: %s refused the valid block {del %v, add %d}: %v", i, in.Cfg, b.Del, b.Add, err)
 			}
+			return nil
 		}
-		first := len(f.Hashes)
-		applyToModel(f, b)
-		for _, s := range b.Del {
-			delete(w.tracked, s)
-		}
-		for k, h := range addH {
-			if !w.seen[h] {
-				w.seen[h] = true
-				w.ever = append(w.ever, h)
+		post = func() {
+			w.stack = append(w.stack, fr)
+			first := len(f.Hashes)
+			applyToModel(f, b)
+			for _, s := range b.Del {
+				delete(w.tracked, s)
 			}
-			if inSet(b.Rem, k) {
-				w.tracked[first+k] = true
+			for k, h := range addH {
+				if !w.seen[h] {
+					w.seen[h] = true
+					w.ever = append(w.ever, h)
+				}
+				if inSet(b.Rem, k) {
+					w.tracked[first+k] = true
+				}
 			}
 		}
 	case "undo":
 		if len(w.stack) == 0 {
-			return fmt.Errorf("case error: undo at step %d with empty history", i), nil
+			return nil, nil, fmt.Errorf("case error: undo at step %d with empty history", i)
 		}
 		fr := w.stack[len(w.stack)-1]
-		w.stack = w.stack[:len(w.stack)-1]
-		for _, in := range w.insts {
+		call = func(in *Inst) error {
 			if err := in.Acc().Undo(uint64(fr.b.Add), cloneProof(fr.proof), cloneHashes(fr.delH), cloneHashes(fr.roots)); err != nil {
-				return nil, fmt.Errorf("step %d: %s: Undo of block {del %v, add %d} failed: %v", i, in.Cfg, fr.b.Del, fr.b.Add, err)
+				return fmt.Errorf("step %d: %s: Undo of block {del %v, add %d} failed: %v", i, in.Cfg, fr.b.Del, fr.b.Add, err)
 			}
+			return nil
 		}
-		w.f = fr.before
-		for s := range w.tracked {
-			if s >= len(w.f.Hashes) {
-				delete(w.tracked, s)
+		post = func() {
+			w.stack = w.stack[:len(w.stack)-1]
+			w.f = fr.before
+			for s := range w.tracked {
+				if s >= len(w.f.Hashes) {
+					delete(w.tracked, s)
+				}
 			}
-		}
-		for _, s := range fr.b.Del {
-			w.tracked[s] = true
+			for _, s := range fr.b.Del {
+				w.tracked[s] = true
+			}
 		}
 	case "verify", "ingest":
 		if err := w.liveCheck(i, st.Set); err != nil {
-			return err, nil
+			return nil, nil, err
 		}
 		hs := f.HashesOf(st.Set)
 		proof := f.View().Proof(hs)
-		for _, in := range w.insts {
+		call = func(in *Inst) error {
 			var err error
 			if st.Op == "ingest" && in.M != nil {
 				err = in.M.Ingest(cloneHashes(hs), cloneProof(proof))
@@ -135,50 +163,58 @@ func (w *world) step(i int, st WStep) (caseErr, opErr error) {
 				err = in.Acc().Verify(cloneHashes(hs), cloneProof(proof), true)
 			}
 			if err != nil {
-				return nil, fmt.Errorf("step %d: %s: %s of an honest proof for slots %v failed: %v", i, in.Cfg, st.Op, st.Set, err)
+				return fmt.Errorf("step %d: %s: %s of an honest proof for slots %v failed: %v", i, in.Cfg, st.Op, st.Set, err)
 			}
+			return nil
 		}
-		for _, s := range st.Set {
-			w.tracked[s] = true
+		post = func() {
+			for _, s := range st.Set {
+				w.tracked[s] = true
+			}
 		}
 	case "prune":
 		var hs []Hash
 		for _, s := range st.Set {
 			if s < 0 || s >= len(f.Hashes) {
-				return fmt.Errorf("case error: prune of unknown slot %d", s), nil
+				return nil, nil, fmt.Errorf("case error: prune of unknown slot %d", s)
 			}
 			hs = append(hs, f.Hashes[s])
 		}
-		for _, in := range w.insts {
+		call = func(in *Inst) error {
 			if in.M == nil || in.M.Full {
-				continue // pruning is only meaningful for a partial forest
+				return nil // pruning is only meaningful for a partial forest
 			}
 			if err := in.M.Prune(cloneHashes(hs)); err != nil {
-				return nil, fmt.Errorf("step %d: %s: Prune(slots %v) failed: %v", i, in.Cfg, st.Set, err)
+				return fmt.Errorf("step %d: %s: Prune(slots %v) failed: %v", i, in.Cfg, st.Set, err)
 			}
+			return nil
 		}
-		for _, s := range st.Set {
-			delete(w.tracked, s)
+		post = func() {
+			for _, s := range st.Set {
+				delete(w.tracked, s)
+			}
 		}
 	case "reread":
 		// the writer serializes its own state and reads it back into the same instance (Read is a
 		// writer-side operation of the map forest); the state does not change
-		for _, in := range w.insts {
+		call = func(in *Inst) error {
 			if in.M == nil {
-				continue
+				return nil
 			}
 			var buf bytes.Buffer
 			if _, err := in.M.Write(&buf); err != nil {
-				return nil, fmt.Errorf("step %d: %s: Write failed: %v", i, in.Cfg, err)
+				return fmt.Errorf("step %d: %s: Write failed: %v", i, in.Cfg, err)
 			}
 			if _, err := in.M.Read(&buf); err != nil {
-				return nil, fmt.Errorf("step %d: %s: Read of its own stream failed: %v", i, in.Cfg, err)
+				return fmt.Errorf("step %d: %s: Read of its own stream failed: %v", i, in.Cfg, err)
 			}
+			return nil
 		}
+		post = func() {}
 	default:
-		return fmt.Errorf("case error: unknown op %q", st.Op), nil
+		return nil, nil, fmt.Errorf("case error: unknown op %q", st.Op)
 	}
-	return nil, nil
+	return call, post, nil
 }
 
 // check compares every instance with the model (full forests completely, partial forests by the
